@@ -116,6 +116,11 @@ def modelLine (s : State) (line : String) : State × String :=
   let t := tokens line
   match t with
   | ["nft", "reset"] => ({}, "ok " ++ showState {})
+  | ["nft", "vjson", d] =>
+    -- pure conformance case: ValidateBasic of an otherwise well-formed mint carrying this data
+    match hexArg [d] "data" with
+    | none => (s, "bad-op")
+    | some h => (s, (if mintVB "A0" "A0" "cla" "t0a" "" (dataOkPlain h) then "ok " else "rej ") ++ showState s)
   | _ =>
     match parseOp t with
     | none => (s, "bad-op")
@@ -149,6 +154,14 @@ def runMonitor (ops obs : Array String) : IO Unit := do
       match parseObs o with
       | some s => pre := s
       | none => out.putStrLn s!"mon C14 FAIL clause=obs-parse line={i+1}"; fails := fails + 1
+    | ["nft", "vjson", _] =>
+      -- a pure ValidateBasic case: no message is delivered, the state must not move
+      match parseObs o with
+      | some post =>
+        if !(sameObs pre post) then
+          out.putStrLn s!"mon C14 FAIL clause=rejected-but-changed line={i+1}"; fails := fails + 1
+        pre := post
+      | none => out.putStrLn s!"mon C14 FAIL clause=obs-parse line={i+1}"; fails := fails + 1
     | _ =>
       match parseOp t, parseObs o with
       | some op, some post =>
@@ -166,6 +179,24 @@ def runMonitor (ops obs : Array String) : IO Unit := do
       | _, _ => out.putStrLn s!"mon C14 FAIL clause=parse line={i+1}"; fails := fails + 1
   out.putStrLn s!"mon C14 done steps={steps} fails={fails}"
 
+/-- diagnostic: op kind + the model's verdict with its reason, one per line -/
+def runExplain (ops : Array String) : IO Unit := do
+  let mut s : State := {}
+  let out ← IO.getStdout
+  for l in ops do
+    let t := tokens l
+    match t with
+    | ["nft", "reset"] => s := {}
+    | ["nft", "vjson", _] => pure ()
+    | _ =>
+      match parseOp t with
+      | none => out.putStrLn "bad-op"
+      | some op =>
+        match step s op with
+        | .ok s' => s := s'; out.putStrLn s!"{t.getD 1 ""} ok"
+        | .error (.reject w) => out.putStrLn s!"{t.getD 1 ""} rej {w}"
+        | .error (.panic w) => out.putStrLn s!"{t.getD 1 ""} panic {w}"
+
 def readLines (p : String) : IO (Array String) := do
   let c ← IO.FS.readFile p
   return (c.splitOn "\n").toArray.filter (· ≠ "")
@@ -173,6 +204,7 @@ def readLines (p : String) : IO (Array String) := do
 def main (args : List String) : IO UInt32 := do
   match args with
   | ["model", ops] => runModel (← readLines ops); return 0
+  | ["explain", ops] => runExplain (← readLines ops); return 0
   | ["monitor", "C14", ops, obs] => runMonitor (← readLines ops) (← readLines obs); return 0
   | _ => IO.eprintln "usage: model <ops> | monitor C14 <ops> <obs>"; return 2
 
